@@ -23,5 +23,11 @@ def run(tier, seed):
     rep.assumptions += ['user call-backs: rate >= 0, functions of (node, statuses); COVERING assumption from the property: a status change at x changes the rate only of x and of get_influence_set(G, x, new statuses)',
                         'IC assigns a status to every node; two distinct reported statuses (the case analysed)',
                         'callee contracts of _ListDict_ are those verified under C16; M: Gillespie direct method']
+    from ..replay import sim_native
+    rep.bounded_is_supplementary = True
+    rep.add(util.native_ob('native:complex-contagion-clock-uses-current-rates', 'EoN/simulation.py:Gillespie_complex_contagion', sim_native.c15_native,
+                           'scripted random source, 4 models (SIR, SIRS, threshold, cumulative exposure) x influence sets returned as list / set / one-shot iterator / generator / depending on the '
+                           'node\'s new status x 5 random initial conditions on a 7-node graph with isolated nodes, tmin in {0, 2.5, -1}: at every step the clock rate equals the sum of the user\'s rates '
+                           'over the current statuses, the acting node had a positive rate and takes the chooser\'s status, the run only stops early when all rates are 0 (floating-point rates)'))
     rep.not_covered += ['return_full_data=True path (node histories)']
-    return rep, None
+    return rep, util.native_replayer
